@@ -71,11 +71,49 @@ def _raised_inside_implementation(exc):
     return bool(last) and os.path.realpath(last).startswith(os.path.join(repo, "mouette"))
 
 
+class _CaseTimeout(BaseException):
+    """raised by the per-case alarm; a BaseException so that `except Exception` inside the implementation cannot swallow it"""
+
+
+def _case_timeout():
+    try:
+        return float(os.environ.get("VERIF_CASE_TIMEOUT", "300"))
+    except ValueError:
+        return 300.0
+
+
+class _case_deadline:
+    """Per-case wall-clock limit for callbacks that drive the implementation (main thread only; a no-op elsewhere)."""
+    def __enter__(self):
+        import signal, threading
+        self.on = threading.current_thread() is threading.main_thread() and hasattr(signal, "setitimer") and _case_timeout() > 0
+        if self.on:
+            def _h(signum, frame):
+                raise _CaseTimeout()
+            self.old = signal.signal(signal.SIGALRM, _h)
+            signal.setitimer(signal.ITIMER_REAL, _case_timeout())
+        return self
+
+    def __exit__(self, *a):
+        if self.on:
+            import signal
+            signal.setitimer(signal.ITIMER_REAL, 0)
+            signal.signal(signal.SIGALRM, self.old)
+        return False
+
+
 def safe_probe(pid, what, fn, case):
     """Like `safe`, for callbacks that drive the implementation: an exception raised *inside the implementation* while the
     harness inspects it is returned as a finding (third component), not as a harness error."""
     try:
-        return fn(case), None, None
+        with _case_deadline():
+            return fn(case), None, None
+    except _CaseTimeout:
+        # the implementation did not return: no clause of any statement can hold on this input ("for every input ... returns/gives ...").
+        # The limit is generous (VERIF_CASE_TIMEOUT seconds, default 300; cases take milliseconds to a few seconds on the unchanged tree)
+        return None, None, {"key": f"{pid}/{what}/implementation-does-not-return",
+                            "what": f"the implementation did not return within {_case_timeout():.0f} s on this case (it returns at once on the unchanged tree)",
+                            "detail": ""}
     except Exception as e:  # noqa
         txt = f"{type(e).__name__}: {e}\n{traceback.format_exc()[-1500:]}"
         if _raised_inside_implementation(e):
